@@ -98,14 +98,14 @@ func (e *Engine) translateFacts() (lemmas []*Obligation) {
 		}
 		if fa.Kind == "axiom" {
 			if !fa.Manual {
-				e.axioms = append(e.axioms, axiom{name: fa.Name, text: axText})
+				e.axioms = append(e.axioms, axiom{name: fa.Name, text: axText, decls: c.decls})
 			}
 		} else {
 			// a lemma is proved from the facts that precede it and may be used by
 			// everything that follows
 			lemmas = append(lemmas, &Obligation{Fn: "$lemma", Name: "lemma." + fa.Name, Kind: "lemma", Tags: fa.Tags, Goal: text, ctx: c, Text: fa.Text, Pos: fmt.Sprintf("contracts_verif.go:%d", fa.Line), AxN: len(e.axioms) + 1})
 			if !fa.Manual {
-				e.axioms = append(e.axioms, axiom{name: fa.Name, text: axText, lemma: true})
+				e.axioms = append(e.axioms, axiom{name: fa.Name, text: axText, lemma: true, decls: c.decls})
 			}
 		}
 	}
@@ -279,6 +279,16 @@ func (e *Engine) buildQueryF(o *Obligation, withModel, filter bool) string {
 					break
 				}
 			}
+			if !rel {
+				// an axiom about a heap field (and no function symbol) is relevant
+				// when the obligation reads that field's initial array
+				for _, tk := range tokens(ax.text) {
+					if strings.HasPrefix(tk, "H_") && !strings.Contains(tk, "!") && containsSymbol(bodyText, tk) {
+						rel = true
+						break
+					}
+				}
+			}
 			if rel {
 				used[i] = true
 				before := len(have)
@@ -311,22 +321,45 @@ func (e *Engine) buildQueryF(o *Obligation, withModel, filter bool) string {
 			b.WriteByte('\n')
 		}
 	}
+	var axb strings.Builder
 	for i, ax := range e.axioms {
 		if used[i] {
-			fmt.Fprintf(&b, "(assert %s) ; axiom %s\n", ax.text, ax.name)
+			fmt.Fprintf(&axb, "(assert %s) ; axiom %s\n", ax.text, ax.name)
 		}
 	}
+	axText := axb.String()
+	declared := map[string]bool{}
 	if o.ctx != nil {
 		for _, d := range o.ctx.decls {
 			// only constants that are mentioned
 			name := d[len("(declare-const "):]
 			name = name[:strings.IndexByte(name, ' ')]
-			if strings.Contains(bodyText, name) {
+			if strings.Contains(bodyText, name) || containsSymbol(axText, name) {
 				b.WriteString(d)
 				b.WriteByte('\n')
+				declared[name] = true
 			}
 		}
 	}
+	// constants that only an included axiom mentions (initial heap arrays)
+	for i, ax := range e.axioms {
+		if !used[i] {
+			continue
+		}
+		for _, d := range ax.decls {
+			if !strings.HasPrefix(d, "(declare-const ") {
+				continue
+			}
+			name := d[len("(declare-const "):]
+			name = name[:strings.IndexByte(name, ' ')]
+			if !declared[name] && containsSymbol(ax.text, name) {
+				b.WriteString(d)
+				b.WriteByte('\n')
+				declared[name] = true
+			}
+		}
+	}
+	b.WriteString(axText)
 	b.WriteString(bodyText)
 	b.WriteString("(check-sat)\n")
 	if withModel {
